@@ -16,7 +16,11 @@ VERIF = "/verif"
 ALL = ["C04", "C05", "C07", "C09", "C10", "C17", "C19"]
 
 def sh(cmd, **kw):
-    return subprocess.run(cmd, stdout=subprocess.PIPE, stderr=subprocess.STDOUT, text=True, **kw)
+    kw.setdefault("timeout", 2400)
+    try:
+        return subprocess.run(cmd, stdout=subprocess.PIPE, stderr=subprocess.STDOUT, text=True, **kw)
+    except subprocess.TimeoutExpired:
+        return subprocess.CompletedProcess(cmd, 124, "TIMEOUT")
 
 def main():
     args = [a for a in sys.argv[1:] if not a.startswith("--")]
